@@ -249,6 +249,9 @@ class StyleProperties:
 
     @classmethod
     def extract(cls, context: StyleParsingContext, xml_attrib: str):
+      if xml_attrib not in ("true", "false"):
+        raise ValueError("itts:fillLineGap must be true or false")
+
       return xml_attrib == "true"
 
     @classmethod
@@ -399,7 +402,7 @@ class StyleProperties:
 
     @classmethod
     def extract(cls, context: StyleParsingContext, xml_attrib: str):
-      return float(xml_attrib)
+      return StyleProperties.ttml_number_to_model(xml_attrib)
 
     @classmethod
     def from_model(cls, xml_element, model_value):
@@ -434,7 +437,7 @@ class StyleProperties:
 
     @classmethod
     def extract(cls, context: StyleParsingContext, xml_attrib: str):
-      return float(xml_attrib)
+      return StyleProperties.ttml_number_to_model(xml_attrib)
 
     @classmethod
     def from_model(cls, xml_element, model_value):
@@ -1164,6 +1167,15 @@ class StyleProperties:
     (value, units) = utils.parse_length(xml_attrib)
 
     return styles.LengthType(value, styles.LengthType.Units(units))
+
+  _NUMBER_RE = re.compile(r"[+-]?(?:\d+(?:\.\d+)?|\.\d+)(?:[eE][+-]?\d+)?")
+
+  @classmethod
+  def ttml_number_to_model(cls, xml_attrib: str) -> float:
+    if cls._NUMBER_RE.fullmatch(xml_attrib) is None:
+      raise ValueError("Bad number syntax")
+
+    return float(xml_attrib)
 
   @staticmethod
   def to_ttml_color(model_value: styles.ColorType):
